@@ -34,6 +34,7 @@ def run(ctx):
                 'DEFAULT equal to default, explicitly tagged primitives) x (encoder, decoder) in {(DER,DER),(DER,CER),(DER,BER),(CER,CER),(CER,BER)}; '
                 'agreement of the three decoders on DER, CER and BER-only (indefinite, chunked) encodings of the same value')
     cases = codec.gen_cases(ctx, ctx.n(100, 2000), depth=3, any_der=True) + targeted(ctx)
+    cases += codec.leaf_boundary_cases(ctx, every=3 if ctx.tier == 'quick' else 1)
     exprs, meta = [], []
     search_only = getattr(ctx, 'search_only', False)
     for c in cases:
